@@ -7,7 +7,7 @@ from ..core import hx
 PROOF_MODULE = "Nlmodel.Proofs.C17"
 PROOF_FILES = ["Nlmodel/Proofs/C17.lean", "Nlmodel/Model/Session.lean", "Nlmodel/Model/Resolve.lean", "Nlmodel/Model/VM.lean"]
 THEOREM_FILE = PROOF_FILES[0]
-LEVEL_TEXT = ("Lean theorems on the explicit-state session model (compiler symbol table + machine globals carried from line to line): a line that fails to parse or to compile leaves the session exactly as it was; every run starts from an empty stack and no frames and sees exactly the globals the earlier lines left; a line failing at run time leaves the symbol table of that line and the globals with the assignments it completed; compiling lines one after the other on the retained symbol table resolves every name (binder and slot) exactly as compiling their concatenation as one program. The statement 'the result of line n equals the result of the single program l1..ln' is decided by the correspondence (partial as a theorem: it needs the C01 simulation generalised over the carried state). Tied to the code by successive real VM::run calls on one (Compiler, VM) pair vs the session model, and by the direct oracle: session result vs real eval of the concatenation of the successful lines. A SESSION REFINES THE DEFINITIONAL SEMANTICS LINE BY LINE (C17_line_refines_semantics, C17_session_refines_semantics; Lemmas/SimCtlSession.lean): in the control-flow fragment (global scalar variables, stel, assignment, operators, als/zolang as statements and values, stop/volgende, nested blocks) a session of ANY length answers every line with the value the definitional semantics gives when run line by line on the carried state - earlier lines' names resolved on the retained symbol table to the slots they got, their values found in the retained machine's globals; invariant Sim.SInv (symbol table / globals / definitional state), true of the empty session and re-established by every successful line.")
+LEVEL_TEXT = ("Lean theorems on the explicit-state session model (compiler symbol table + machine globals carried from line to line): a line that fails to parse or to compile leaves the session exactly as it was; every run starts from an empty stack and no frames and sees exactly the globals the earlier lines left; a line failing at run time leaves the symbol table of that line and the globals with the assignments it completed; compiling lines one after the other on the retained symbol table resolves every name (binder and slot) exactly as compiling their concatenation as one program. The statement 'the result of line n equals the result of the single program l1..ln' is decided by the correspondence (partial as a theorem: it needs the C01 simulation generalised over the carried state). Tied to the code by successive real VM::run calls on one (Compiler, VM) pair vs the session model, and by the direct oracle: session result vs real eval of the concatenation of the successful lines. A SESSION REFINES THE DEFINITIONAL SEMANTICS LINE BY LINE (C17_line_refines_semantics, C17_session_refines_semantics; Lemmas/SimCtlSession.lean): in the control-flow fragment (global scalar variables, stel, assignment, operators, als/zolang as statements and values, stop/volgende, nested blocks) a session of ANY length answers every line with the value the definitional semantics gives when run line by line on the carried state - earlier lines' names resolved on the retained symbol table to the slots they got, their values found in the retained machine's globals; invariant Sim.SInv (symbol table / globals / definitional state), true of the empty session and re-established by every successful line. THE SESSION IS ONE GROWING PROGRAM (C17_session_is_one_growing_program): in that fragment the real session's answer to its last line equals the definitional value of the single program made of all the lines, when the last line ends in an expression statement (resolver concatenation lemma; a block followed by a block evaluates as one after the other; the last register is write-only for the whole definitional evaluator, SL.all; the resolver leaves its nesting counters as found, RD.dSs).")
 LEVEL_NOTE = ("Trusted: Lean kernel. Within U8 of DESIGN 4.3: sessions whose globals hold only scalars and whose functions are called on the line that defines them (heap values and function values across lines are finding K2; declared-but-never-assigned names after a run-time failure are finding K1).")
 TECHNIQUE = "Lean 4 proof (explicit-state session model) + session-vs-model and session-vs-concatenation differential with failure injection"
 RULE = ("sessions of up to 12 lines from an alphabet of declarations, assignments, expressions over earlier globals, loops, self-contained "
